@@ -20,7 +20,9 @@ def variants(rings=None):
     vs = [{"host": "instrumented", "family": "spied"},
           {"host": "queued", "family": "spied", "drive": "dispatch"},
           {"host": "queued", "family": "spied", "drive": "queue"},
-          {"host": "queued", "family": "spied", "drive": "queue", "live_spy": True, "live_trace": True}]
+          {"host": "queued", "family": "spied", "drive": "queue", "live_spy": True, "live_trace": True},
+          {"host": "queued", "family": "spied", "drive": "queue", "clear_after": 1},
+          {"host": "queued", "family": "spied", "drive": "dispatch", "clear_after": 0}]
     if rings:
         vs = [dict(v, rings=rings) for v in vs]
     return vs
